@@ -149,3 +149,14 @@ class VLoop(base_events.BaseEventLoop):
         fut = asyncio.ensure_future(future, loop=self)
         self.drain(until=fut.done)
         return fut.result()
+
+
+def pending_tasks(loop):
+    """tasks of ``loop`` that are not done, in creation order (``asyncio.all_tasks`` returns a set whose iteration order
+    depends on object addresses, i.e. differs from process to process)"""
+    def created(t):
+        name = t.get_name()
+        tail = name.rsplit("-", 1)[-1]
+        return (int(tail) if tail.isdigit() else -1, name)
+
+    return sorted((t for t in asyncio.all_tasks(loop) if not t.done()), key=created)
